@@ -1874,6 +1874,8 @@ def uniform_discr_fromdiscr(discr, min_pt=None, max_pt=None,
 
     nodes_on_bdry = kwargs.pop('nodes_on_bdry', False)
     nodes_on_bdry = normalized_nodes_on_bdry(nodes_on_bdry, discr.ndim)
+    # Take the data type from the template unless given explicitly
+    dtype = kwargs.pop('dtype', discr.dtype)
 
     new_min_pt = []
     new_max_pt = []
@@ -1928,7 +1930,8 @@ def uniform_discr_fromdiscr(discr, min_pt=None, max_pt=None,
                                  nodes_on_bdry=nodes_on_bdry)
 
     return uniform_discr_frompartition(
-        new_part, exponent=discr.exponent, impl=discr.impl, **kwargs
+        new_part, dtype=dtype, exponent=discr.exponent, impl=discr.impl,
+        **kwargs
     )
 
 
